@@ -5,8 +5,8 @@ from ..extra_c05 import extra_run, matches_known
 globals().update(
     make(
         pid="C05",
-        props=["JaqalProofs/Props/C05.lean", "JaqalProofs/Props/ParsedC05.lean"],
-        targets=["JaqalProofs.Props.C05", "JaqalProofs.Props.ParsedC05"],
+        props=["JaqalProofs/Props/C05.lean", "JaqalProofs/Props/ParsedC05.lean", "JaqalProofs/Props/C05Text.lean"],
+        targets=["JaqalProofs.Props.C05", "JaqalProofs.Props.ParsedC05", "JaqalProofs.Props.C05Text"],
         diffs=[("harness.agents.pass2_diff", 700, 4000), ("harness.agents.c05_edge", 1500, 3000, {"no_constant_left", "value_exact", "frame_preserved", "meaning_expanded", "invalid_env_rejected", "valid_env_accepted", "emulated_rotation", "terminates"}), ("harness.agents.c05_scale", 120, 200, {"no_constant_left","value_exact","frame_preserved","meaning_expanded","invalid_env_rejected","valid_env_accepted","emulated_register","terminates"}), ("harness.agents.c05_traps", 800, 800)],
         extra_run=extra_run,
         known_matcher=matches_known,
